@@ -6,6 +6,7 @@
 // is the identity on functions; (4) rebuilt after everything else was released, caches cleared and
 // handles recycled by unrelated garbage.
 #include "common.h"
+#include <cmath>
 using namespace MEDDLY;
 using namespace mdh;
 
@@ -104,6 +105,18 @@ int run(const Args& A) {
                 static const unsigned dens[] = {0, 5, 20, 50, 80, 100};
                 targets.push_back(randomTable(r, D, k, dens[r.below(6)]));
             }
+        }
+        // EV* forests: half of the cases use TINY magnitudes (2^-21 .. 2^-30, exact in a float and above the
+        // library's 1e-10 zero threshold): values that differ by a factor >= 2 but by less than 1e-6 absolutely
+        // must still be different edge values / different nodes
+        if (isEVT(k) && r.chance(1, 2)) {
+            STATS.hit("gen.evtimes.tiny");
+            for (auto& tg : targets)
+                for (auto& v : tg)
+                    if (v != k.zero() && !r.chance(1, 5)) {
+                        double m = std::ldexp(1.0, -int(r.range(21, 30)));
+                        v = Val::real(v.n < 0 ? -m : m);
+                    }
         }
         int serial = 0;
         auto hold = [&](const std::vector<Val>& tgt, int path) -> Held* {
